@@ -407,7 +407,8 @@ def gen_program(rng, max_nodes=30):
             break
         seg = max(0, seg - 1)
     # a third of the programs first call backward on an earlier tensor (accumulation into leaves, stale intermediate buffers)
-    return {"steps": g.steps, "root": None, "seed_salt": rng.randrange(1 << 30), "pre": rng.random() < 0.35, "pre_pick": rng.random()}
+    return {"steps": g.steps, "root": None, "seed_salt": rng.randrange(1 << 30), "pre": rng.random() < 0.35, "pre_pick": rng.random(),
+            "fail_first": rng.random() < 0.3}      # a call with a wrong-shaped gradient, caught, before the real ones
 
 
 # ------------------------------------------------------------------------------------------------------------------
@@ -512,7 +513,17 @@ def execute(prog, order=None, lib="both"):
             R.pre_root = prog["pre_root"]
         elif cands and prog.get("pre_root") is None:
             R.pre_root = cands[int(prog.get("pre_pick", 0.5) * len(cands)) % len(cands)]
+    R.failed_calls = 0
     try:
+        if prog.get("fail_first"):
+            for x in ([root] if R.pre_root is None else [root, R.pre_root, root]):
+                try:
+                    S[x].backward(sg.Tensor(np.ones(tuple(Tt[x].shape) + (2,))))
+                except (RuntimeError, ValueError, AssertionError):
+                    R.failed_calls += 1
+                else:
+                    raise RuntimeError("backward accepted a gradient of the wrong shape")
+            del calls[:]
         if R.pre_root is not None:
             s0 = seed_for(prog["seed_salt"] + 7, R.pre_root, tuple(Tt[R.pre_root].shape))
             S[R.pre_root].backward(sg.Tensor(s0.copy()))
@@ -555,6 +566,8 @@ def judge(prog, R):
             if g is not None:
                 return {"clause": "a leaf that does not require grad has no .grad", "leaf": i, "grad": g.reshape(-1)[:6].tolist()}
             continue
+        if tg is None and g is not None and R.failed_calls and not np.any(g):
+            continue        # a refused call has already created the (zero) buffers below its root; torch refuses before touching anything
         if (g is None) != (tg is None):
             return {"clause": "leaf .grad is None exactly where torch's is", "leaf": i, "synapgrad": None if g is None else g.reshape(-1)[:6].tolist(),
                     "torch": None if tg is None else tg.reshape(-1)[:6].tolist()}
@@ -670,6 +683,8 @@ def describe(prog):
             out.append("%s = %s(%s%s)%s" % (", ".join("t%d" % i for i in st["out"]), st["op"], ", ".join("t%d" % i for i in st["args"]),
                                               (", " + json.dumps(st["p"])) if st["p"] else "", "   # inside no_grad" if st.get("nograd") else ""))
     made = {i for st in prog["steps"] for i in ([st["id"]] if st["k"] == "leaf" else st["out"])}
+    if prog.get("fail_first"):
+        out.append("try: t%s.backward(<gradient of the wrong shape>)  except RuntimeError: pass" % prog.get("root"))
     if prog.get("pre") and prog.get("pre_root") is not None and prog["pre_root"] in made and prog["pre_root"] != prog.get("root"):
         out.append("t%s.backward(seed0)" % prog.get("pre_root"))
     out.append("t%s.backward(seed)" % prog.get("root"))
